@@ -1,6 +1,7 @@
 package props
 
 import (
+	"errors"
 	"fmt"
 	"runtime"
 	"sort"
@@ -54,7 +55,8 @@ type concWorld struct {
 	probes   []world.Probe
 	table    [][]expect // [probe][mask]
 	pool     []*model.Pattern
-	ballast  int // routes registered outside the key set (method TRACE): a deep chain of nested prefixes
+	ballast  int // routes registered outside the key set: a deep chain of nested prefixes under /~
+	ballastM string
 }
 
 // ballast routes live under /~, which no key and no probe reaches; they only change the shape (depth) of the tree.
@@ -126,6 +128,10 @@ func buildConcWorld(src sim.Source, res *Result, tsMode int) *concWorld {
 			cw.probes = append(cw.probes, pr)
 		}
 	}
+	if cw.cfg.AutoOptions && src.Intn("optionsstar", 3) == 0 {
+		// the server-wide OPTIONS request: its Allow header lists every method that has routes at that instant
+		cw.probes = append(cw.probes, world.Probe{Method: "OPTIONS", Path: "*"})
+	}
 	// expectation table, filled on demand (see expectFor)
 	cw.table = make([][]expect, len(cw.probes))
 	for pi := range cw.probes {
@@ -151,7 +157,7 @@ func buildConcWorld(src sim.Source, res *Result, tsMode int) *concWorld {
 				return nil
 			}
 		}
-		cw.ballast = n
+		cw.ballast, cw.ballastM = n, bm
 		res.inc("runs_on_tree_deeper_than_25")
 	}
 	return cw
@@ -172,6 +178,12 @@ func (cw *concWorld) expectFor(pi, mask int) expect {
 			if err := set.Insert(r); err != nil {
 				ok = false // unreachable state (conflicting keys cannot coexist)
 			}
+		}
+	}
+	if cw.ballast > 0 {
+		// the ballast chain never matches a probe path, but its method has routes (server-wide OPTIONS lists it)
+		if bp, err := model.Parse(ballastPrefix + "d"); err == nil {
+			_ = set.Insert(world.ModelRoute(cw.cfg, cw.ballastM, bp, 99, world.RouteOpt{}))
 		}
 	}
 	e := expect{Kind: -2}
@@ -208,6 +220,7 @@ type CTxn struct {
 	End     string // commit abort error panic
 	EndAt   int
 	SnapAt  int // take a Snapshot()/Iter() after this many ops (-1 never)
+	SnapEnd int // what is done with that snapshot while the transaction stays open: 0 dropped, 1 Abort, 2 Commit, 3 a write through it (must be refused), then Abort
 }
 
 func (o COp) String() string {
@@ -242,10 +255,11 @@ type COut struct {
 	Sub    []COut // txn: result of each executed op
 	Done   bool   // txn: committed
 	Ran    int    // txn: operations executed
+	Bad    string // txn: a side check failed (reported through the history: the operation is never linearizable)
 }
 
 func (o COut) String() string {
-	return fmt.Sprintf("{%s tag=%d b=%v n=%d kind=%d params=%s allow=%s snap=%s sub=%v done=%v}", o.Class, o.Tag, o.Bool, o.N, o.Kind, o.Params, o.Allow, o.Snap, o.Sub, o.Done)
+	return fmt.Sprintf("{%s tag=%d b=%v n=%d kind=%d params=%s allow=%s snap=%s sub=%v done=%v%s}", o.Class, o.Tag, o.Bool, o.N, o.Kind, o.Params, o.Allow, o.Snap, o.Sub, o.Done, o.Bad)
 }
 
 func genWriteCOp(src sim.Source, nk int, tag int) COp {
@@ -324,6 +338,7 @@ func genCTxn(src sim.Source, cw *concWorld, nextTag *int) *CTxn {
 	}
 	if src.Intn("snap", 4) == 3 {
 		t.SnapAt = src.Intn("snapat", n+1)
+		t.SnapEnd = src.Intn("snapend", 4)
 	}
 	return t
 }
@@ -491,8 +506,22 @@ func (cw *concWorld) execTxnInto(s *sim.Sched, t *CTxn, out *COut) {
 				return errInjected
 			}
 			if i == t.SnapAt {
+				// a snapshot is a read-only transaction: settling it is a no-op for the transaction it came from (which keeps
+				// the writer lock and its unpublished writes), and writing through it is refused
 				snap := txn.Snapshot()
 				_ = snap.Len()
+				switch t.SnapEnd {
+				case 1:
+					snap.Abort()
+				case 2:
+					snap.Commit()
+				case 3:
+					k := cw.keys[0]
+					if _, err := snap.Handle(k.Method, k.Pat.Raw, world.Handler(0)); !errors.Is(err, fox.ErrReadOnlyTxn) {
+						out.Bad = fmt.Sprintf("Handle through a Snapshot() returned %v, want ErrReadOnlyTxn", err)
+					}
+					snap.Abort()
+				}
 			}
 			var o COut
 			switch op.Kind {
@@ -708,7 +737,7 @@ func (cw *concWorld) porcupineModel() porcupine.Model {
 				if t.End != "commit" && t.EndAt < want {
 					want = t.EndAt
 				}
-				if out.Ran != want || len(out.Sub) != want {
+				if out.Ran != want || len(out.Sub) != want || out.Bad != "" {
 					return false, st
 				}
 				for i := 0; i < want; i++ {
